@@ -39,6 +39,7 @@ CFG = {
     "max_steps": 6,
     "flags": {"-n": 0.2},
     "min_top": 1,
+    "long_every": 6,
 }
 PROBES = ["verify", "verify_sf", "verify_dh", "verify_dh_co", "verify_dh_ro", "verify_pl", "diff", "info", "info_sf", "hash", "xsd", "xsd_df",
           "flatten", "flatten", "create", "create", "create_sf", "create_n", "create_dr", "create_i", "create_sub"]
